@@ -115,4 +115,100 @@ theorem peel_sound : ∀ (n : Nat) (data : Deps) (layers : List (List String)),
                   · exact h2
         · simp at h
 
+/-! ### completeness of the layer peeling: acyclic tables are always ordered -/
+
+/-- the table is acyclic: some rank strictly decreases along every dependency -/
+def Ranked (rank : String → Nat) (data : Deps) : Prop := ∀ kd ∈ data, ∀ y ∈ kd.2, rank y < rank kd.1
+
+/-- every dependency is itself a key of the table -/
+def Closed (data : Deps) : Prop := ∀ kd ∈ data, ∀ y ∈ kd.2, y ∈ keys data
+
+theorem exists_min_rank (rank : String → Nat) : ∀ (data : Deps), data ≠ [] →
+    ∃ kd ∈ data, ∀ kd' ∈ data, rank kd.1 ≤ rank kd'.1 := by
+  intro data
+  induction data with
+  | nil => intro h; exact absurd rfl h
+  | cons a l ih =>
+    intro _
+    by_cases hl : l = []
+    · subst hl; exact ⟨a, by simp, by simp⟩
+    · obtain ⟨m, hm, hmin⟩ := ih hl
+      by_cases hc : rank a.1 ≤ rank m.1
+      · refine ⟨a, by simp, ?_⟩
+        intro kd' hkd'
+        rcases List.mem_cons.mp hkd' with rfl | h
+        · exact Nat.le_refl _
+        · exact Nat.le_trans hc (hmin kd' h)
+      · refine ⟨m, List.mem_cons_of_mem _ hm, ?_⟩
+        intro kd' hkd'
+        rcases List.mem_cons.mp hkd' with rfl | h
+        · omega
+        · exact hmin kd' h
+
+/-- in a non-empty closed acyclic table some entry has no dependencies -/
+theorem exists_free (rank : String → Nat) (data : Deps) (hne : data ≠ []) (hr : Ranked rank data) (hc : Closed data) :
+    ∃ kd ∈ data, kd.2 = [] := by
+  obtain ⟨m, hm, hmin⟩ := exists_min_rank rank data hne
+  refine ⟨m, hm, ?_⟩
+  cases hd : m.2 with
+  | nil => rfl
+  | cons y ys =>
+    exfalso
+    have hy : y ∈ m.2 := by rw [hd]; simp
+    have h1 := hr m hm y hy
+    have h2 := hc m hm y hy
+    obtain ⟨kd', hkd', hk⟩ := List.mem_map.mp h2
+    have := hmin kd' hkd'
+    rw [hk] at this
+    omega
+
+theorem peel_complete (rank : String → Nat) : ∀ (n : Nat) (data : Deps), data.length ≤ n → Ranked rank data → Closed data →
+    (peel n data).isSome = true := by
+  intro n
+  induction n with
+  | zero =>
+    intro data hl _ _
+    have : data = [] := List.eq_nil_of_length_eq_zero (by omega)
+    subst this; simp [peel]
+  | succ n ih =>
+    intro data hl hr hc
+    simp only [peel]
+    by_cases hne : data = []
+    · subst hne; simp
+    · obtain ⟨f, hf, hfe⟩ := exists_free rank data hne hr hc
+      have hord : f.1 ∈ (data.filter (fun kd => kd.2.isEmpty)).map (·.1) :=
+        List.mem_map.mpr ⟨f, List.mem_filter.mpr ⟨hf, by simp [hfe]⟩, rfl⟩
+      have hnonempty : ((data.filter (fun kd => kd.2.isEmpty)).map (·.1)).isEmpty = false := by
+        cases h : (data.filter (fun kd => kd.2.isEmpty)).map (·.1) with
+        | nil => rw [h] at hord; simp at hord
+        | cons _ _ => rfl
+      rw [hnonempty]
+      simp only [Bool.false_eq_true, if_false]
+      -- the rest of the table
+      have hrest := ih ((data.filter (fun kd => kd.1 ∉ (data.filter (fun kd => kd.2.isEmpty)).map (·.1))).map
+          (fun kd => (kd.1, kd.2.filter (· ∉ (data.filter (fun kd => kd.2.isEmpty)).map (·.1))))) ?_ ?_ ?_
+      · cases hp : peel n ((data.filter (fun kd => kd.1 ∉ (data.filter (fun kd => kd.2.isEmpty)).map (·.1))).map
+            (fun kd => (kd.1, kd.2.filter (· ∉ (data.filter (fun kd => kd.2.isEmpty)).map (·.1))))) with
+        | some ls => simp
+        | none => rw [hp] at hrest; simp at hrest
+      · -- strictly shorter: `f` is removed
+        rw [List.length_map]
+        have hlt : (data.filter (fun kd => kd.1 ∉ (data.filter (fun kd => kd.2.isEmpty)).map (·.1))).length < data.length := by
+          apply List.length_filter_lt_length_iff_exists.mpr
+          exact ⟨f, hf, by simpa using hord⟩
+        omega
+      · -- still ranked
+        intro kd hkd y hy
+        obtain ⟨kd0, hkd0, rfl⟩ := List.mem_map.mp hkd
+        exact hr kd0 (List.mem_of_mem_filter hkd0) y (List.mem_of_mem_filter hy)
+      · -- still closed
+        intro kd hkd y hy
+        obtain ⟨kd0, hkd0, rfl⟩ := List.mem_map.mp hkd
+        have hy0 := List.mem_filter.mp hy
+        have hyk := hc kd0 (List.mem_of_mem_filter hkd0) y hy0.1
+        obtain ⟨e, he, hek⟩ := List.mem_map.mp hyk
+        refine List.mem_map.mpr ⟨(e.1, e.2.filter (· ∉ (data.filter (fun kd => kd.2.isEmpty)).map (·.1))), ?_, hek⟩
+        refine List.mem_map.mpr ⟨e, List.mem_filter.mpr ⟨he, ?_⟩, rfl⟩
+        rw [hek]; exact hy0.2
+
 end Cobald.Sections
